@@ -32,6 +32,9 @@ def plan(tier, seed):
         jobs.append({'fn': 'dwt_forward', 'cfg': {'dim': 2, 'mode': m, 'waveform': 'tuple4'},
                      'grid': {'H': [2, 5, 8] + ([11] if dense else []), 'W': [3, 6] + ([9] if dense else []),
                               'Lc2': [1, 3], 'Lr2': [2], 'J': [1, 2]}})
+    # the PyWavelets alias 'per' must behave as 'periodization' in the modules as well
+    jobs.append({'fn': 'dwt_forward', 'cfg': {'dim': 1, 'mode': 'per', 'waveform': 'wavelet'}, 'grid': {'N': [8, 13], 'Lc2': [2, 3], 'J': [1, 2]}})
+    jobs.append({'fn': 'dwt_forward', 'cfg': {'dim': 2, 'mode': 'per', 'waveform': 'tuple4'}, 'grid': {'H': [8], 'W': [6, 9], 'Lc2': [2], 'Lr2': [1], 'J': [1, 2]}})
     return {
         'groups': gs,
         'native': [('oracle_dwt.py', [seed] + (['dense'] if dense else []), 'oracle: spec functions vs pywt.dwt/idwt'),
